@@ -237,10 +237,15 @@ def scanLocked : ScanPc → Bool
   | .del l => l
   | .fin l => l
 
-/-- … or by the UMSYNC fast path -/
-def critFast : Option Crit → Bool
-  | some { pc := .uFast _, .. } => true
+def CritPc.isFast : CritPc → Bool
+  | .uFast _ => true
   | _ => false
+
+/-- … or by the UMSYNC fast path -/
+def critFast (c : Option Crit) : Bool :=
+  match c with
+  | some k => k.pc.isFast
+  | none => false
 
 def mutexHeld (s : Sys) : Bool := scanLocked s.scan || critFast s.crit
 
